@@ -40,6 +40,7 @@ WSS, LSS, IWSS = set(map(chr, WS)), set(map(chr, LINESEP)), set(map(chr, IWS))
 META = set("\\.+*?()|[]{}^$#&-~")
 ALPHA = "abcdefghijklmnopqrstuvwxyzABCDEFGHIJKLMNOPQRSTUVWXYZ"
 DIGIT = "0123456789"
+OCTAL = "01234567"
 XDIGIT = DIGIT + "abcdefABCDEF"
 
 
@@ -47,10 +48,11 @@ XDIGIT = DIGIT + "abcdefABCDEF"
 #  independent Python implementation of the escape rewriting (Spec.v map_escapes)
 # =====================================================================================
 def lex_esc_literal(s):
-    """the escapes the regex engine gives a meaning (Spec.v rx_escape_class): hexadecimal (fixed width or braced), digit,
+    """the escapes the regex engine gives a meaning (Spec.v rx_escape_class): hexadecimal (fixed width or braced), octal digit,
     C escapes, classes, the assertions \\A \\z \\B"""
     c = s[0]
-    return ((c in "xuU" and len(s) > 1 and (s[1] in XDIGIT or s[1] == "{")) or c in DIGIT or c in "afnrtv\\" or c in "pP"
+    return ((c in "xuU" and len(s) > 1 and (s[1] in XDIGIT or s[1] == "{")) or c in OCTAL
+            or c in "afnrtv\\" or c in "pP"
             or c in "dDsSwW" or c in "AzB")
 
 
@@ -313,12 +315,12 @@ NAME_PIECES = ["ID", "T", "é", "a'b", 'q"r', "<x>", "+", ";", "''", '""', "%%",
 COMMENT_PIECES = [" c", "%% not a separator", "é ♠ 'x'", "<A>a 'T'", "", "/", "//", "%s X", "\t", "\x0c", "\u200e", "%x Q",
                   "a 'b'", "\U0001F600", "\x85", " ", "%", "\\"]
 PLAIN_ESC = ['"', "'", "<", ">", ",", ";", "%", "!", "=", "@", "_", "/", ":", "`", "é", "♠", "\U0001F600", "q", "h", "y", "g",
-             "ß", "Ω", " ", "\t", "\x0c", "\x85", "\u200e", "\xa0", "\u3000"]
+             "ß", "Ω", " ", "\t", "\x0c", "\x85", "\u200e", "\xa0", "\u3000", "8", "9"]
 LITERALS = list("abcxyz019_=!@:`,;'\"<>%/") + ["é", "♠", "\U0001F600", "ß", "Ω", " ", "\t", "\x0c", "\x85", "\u200e", "\u200f"]
 LEXESC = ["\\d", "\\w", "\\s", "\\n", "\\t", "\\x41", "\\101", "\\u00e9", "\\pL", "\\a", "\\f", "\\r", "\\v", "\\D", "\\S", "\\W", "\\x7a",
-          "\\A", "\\z", "\\U0001F600", "\\0", "\\7", "\\B", "\\x{41}", "\\u{e9}", "\\U{1F600}", "\\x{2}", "\\P{L}"]
+          "\\A", "\\z", "\\U0001F600", "\\0", "\\7", "\\B", "\\x{41}", "\\u{e9}", "\\U{1F600}", "\\x{2}", "\\P{L}", "\\18", "\\78"]
 GROUPS = ["[a-c]", "[^x]", ".", "(ab|c)", "[é♠]", "(a|é)", "[0-9]", "[\\]a]", "[b\\-c]", "[ \t]", "[<>]", "(?:x y)", "[',\";]",
-          "[%/]", "a{2}", "a{1,3}", "[\\ x]", "[\\\xa0\\#]", "[\\x{41}-\\x{43}]", "[^\\u{e9}]", "[\\U{1F600}a]"]
+          "[%/]", "a{2}", "a{1,3}", "[\\ x]", "[\\\xa0\\#]", "[\\x{41}-\\x{43}]", "[^\\u{e9}]", "[\\U{1F600}a]", "[\\8\\9]", "[0-\\8]"]
 
 
 def gen_regex(rng, awc, pe, has_pre):
@@ -348,6 +350,8 @@ def gen_regex(rng, awc, pe, has_pre):
                 if rng.random() < 0.2 and a not in ("\\b", "\\A", "\\z", "\\B") and not a.endswith("}"):
                     parts.append(rng.choice(["+", "*", "?"]))
             w = "".join(parts)
+        if not C11check.ESC_OCTAL_FIXED and C11check.G.has_nonoctal_escape(w):
+            continue          # `\8` `\9`: only once the digit repair of the escape table is in /repo (theorem about `repaired`)
         if re_printable(awc, has_pre, w):
             return w
     return "a"
